@@ -17,7 +17,7 @@ def plan(ctx):
 
 
 def run(ctx):
-    res = sf.run_store(ctx, "C02", CTORS, plan(ctx), wide=700 if ctx.quick else 10000, wide_ops=("get", "getpos", "ref", "write", "clear", "obs"))
+    res = sf.run_store(ctx, "C02", CTORS, plan(ctx), wide=700 if ctx.quick else 10000, wide_ops=("get", "getpos", "ref", "write", "clear", "obs"), cache=250 if ctx.quick else 4000)
     from . import c05
     viol, n, ev, vst = c05.side_check(ctx, "C02", "P:C05:member-throughout", "P:C02:populate-rank-mirror")
     res["violations"] += viol
